@@ -506,6 +506,22 @@ func (r *runner) line(l string) string {
 				}
 				return res
 			}
+		case "trypop":
+			// SyncQueue: a barging TryPop — in a burst it runs between a push and the resume of the consumer it signalled
+			if len(ev) != 1 || !isSync {
+				return nil
+			}
+			return func() string {
+				v, ok := r.lq.(syncQ).q.TryPop()
+				res := "none"
+				if ok && v == nil {
+					res = "closed"
+				} else if ok {
+					res = valName(v, nil, nil)
+					r.noteHanded(res)
+				}
+				return res
+			}
 		case "close":
 			if len(ev) != 1 {
 				return nil
